@@ -413,6 +413,8 @@ func main() {
 	}
 	phases := []phase{
 		{"one-file", []string{"etc/f.list"}, []string{"A 1", "B 2"}, ev.Pick(r, 5, 7), one},
+		// the same package name in two versions: an in-place upgrade / downgrade of one package
+		{"one-file-two-versions", []string{"etc/f.list"}, []string{"A 1", "A 2"}, ev.Pick(r, 5, 6), one},
 		{"two-files", []string{"etc/f.list", "etc/g.list"}, []string{"A 1", "B 2"}, ev.Pick(r, 3, 5), one},
 		{"one-file-two-extractors", []string{"etc/f.list"}, []string{"A 1", "B 2"}, ev.Pick(r, 4, 5), two},
 	}
@@ -435,5 +437,5 @@ func main() {
 	os.RemoveAll(base)
 	r.Set("depth_completed_per_phase", bounds)
 	r.Assume("the oracle extracts each file independently from the implementation's own image-up-to-layer views (the property is stated over them); the views themselves are C04's subject")
-	r.Finish("BFS over layer histories: per layer one of {touch unrelated file, empty history entry, write file with each subset of the package pool, delete file (whiteout), delete parent directory}; phases: one file x 2 packages, two files (same package in both = same PURL at two locations), one file read by two extractors, (thorough) one file x 3 packages; every history rebuilt as a real image, scanned by ScanContainer and compared with brute-force attribution; states = distinct (views, diffs) keys, transitions = histories executed, non-trivial = states of depth >=3 reporting >=1 package", allComplete)
+	r.Finish("BFS over layer histories: per layer one of {touch unrelated file, empty history entry, write file with each subset of the package pool, delete file (whiteout), delete parent directory}; phases: one file x 2 packages, one file x 2 versions of one package, two files (same package in both = same PURL at two locations), one file read by two extractors, (thorough) one file x 3 packages; every history rebuilt as a real image, scanned by ScanContainer and compared with brute-force attribution; states = distinct (views, diffs) keys, transitions = histories executed, non-trivial = states of depth >=3 reporting >=1 package", allComplete)
 }
